@@ -362,6 +362,17 @@ def run(ctx: Ctx) -> int:
     same = conds[0] is not None and conds[1] is not None and tgt[0] and tgt[1] and conds[0].replace(tgt[0], "@") == conds[1].replace(tgt[1], "@") and conds[0].startswith("notisinstance(")
     ctx.oblige("C07.e", same, comps[0], "the list of actions and the option-string table of a moved parser are filtered by the same class test (an action dropped from one but kept in the other is half-moved)", fn=ff)
 
+    # =========================================================== C07.g
+    # a default given as an instance of the group's class is turned into a nested mapping for every dataclass-like family
+    # alike (dataclasses.asdict and pydantic's dump recurse by definition): the attrs arm must recurse too
+    fdt = ctx.func("_signatures:dataclass_to_dict")
+    conv = [c for c in calls_in(fdt) if call_leaf(c) == "asdict" and "attrs" in ast.unparse(c.func)]
+    ctx.need(conv, "dataclass_to_dict: attrs.asdict(value)")
+    for c in conv:
+        rec = next((k.value for k in c.keywords if k.arg == "recurse"), None)
+        ok = rec is None or (isinstance(rec, ast.Constant) and rec.value is True)
+        ctx.oblige("C07.g", ok, c, "attrs instances are converted recursively, like dataclasses and pydantic models" if ok else "attrs.asdict(..., recurse=False) leaves nested attrs instances as objects: an attrs-typed argument with a default instance holding a nested attrs instance fails at add_argument (AttributeError: no attribute 'items'), the same fields declared as a dataclass, class arguments or dotted arguments are accepted", fn=fdt)
+
     return ctx.finish(
         "Narrow claim. The four declaration styles are not independent implementations: three are reduced to flat dotted "
         "actions plus one whole-group loader action. The check decides that every reduction step produces that common "
